@@ -62,6 +62,14 @@ func (p *c17Prop) ID() string { return "C17" }
 func (p *c17Prop) Header() string {
 	return "From Coq Require Import List NArith.\nImport ListNotations.\nFrom VMQ Require Import chk.C17chk.\n"
 }
+func (p *c17Prop) Suspect(oi interface{}) bool {
+	for _, r := range oi.(*c17Obs).Reads {
+		if r.Kind == "blocked" {
+			return true
+		}
+	}
+	return false
+}
 func (p *c17Prop) Parallel() int { return 1 } // one connection at a time: the handler pairs by arrival
 
 func (p *c17Prop) OnConnection(c transport.Conn, _ *auth.Manager) error {
@@ -257,7 +265,7 @@ func (p *c17Prop) Run(ci interface{}) interface{} {
 				break
 			}
 			handlerDone = true
-		case <-time.After(4 * time.Second):
+		case <-time.After(3 * time.Second):
 			obs.Reads = append(obs.Reads, c17Read{Kind: "blocked"})
 			conn.Close()
 			<-s.done
